@@ -697,16 +697,18 @@ Lemma st_inv_pre e pre : st_inv e (state_pre pre).
 Proof. split; [intros p []|intros l k d []]. Qed.
 
 
-(** ... across consecutive root runs in one process as well *)
-Theorem run_roots_inv w : forall invs st,
-  st_inv (w_env w) st -> st_inv (w_env w) (fst (fst (run_roots w st invs))).
+(** ... across consecutive root runs in one process as well (any fuel) *)
+Theorem run_roots_inv fuel w : forall invs st,
+  st_inv (w_env w) st -> st_inv (w_env w) (fst (fst (run_roots fuel w st invs))).
 Proof.
-  induction invs as [|[[l pd] n] rest IH]; intros st Hi; cbn; [exact Hi|].
-  pose proof (run_pipeline_inv FUEL w st l pd n PNone Hi) as H1.
-  destruct (run_pipeline FUEL w st l pd n PNone) as [[st1 ev1] s1]. cbn in H1.
+  induction invs as [|[[l pd] n] rest IH]; intros st Hi; [exact Hi|].
+  cbn [run_roots].
+  pose proof (run_pipeline_inv fuel w st l pd n PNone Hi) as H1.
+  destruct (run_pipeline fuel w st l pd n PNone) as [[st1 ev1] s1]. cbn [fst] in H1.
   destruct rest as [|i2 rest']; [exact H1|].
+  specialize (IH st1 H1).
   destruct s1; try exact H1;
-    (specialize (IH st1 H1); destruct (run_roots w st1 (i2 :: rest')) as [[st2 ev2] s2]; exact IH).
+    (destruct (run_roots fuel w st1 (i2 :: rest')) as [[st2 ev2] s2]; exact IH).
 Qed.
 
 (** a module file next to a file-loaded pipeline: the import attempt succeeds whatever was
